@@ -145,3 +145,21 @@ def check_self_contained(netlist, objs_of_netlist, disc, name_of, P):
         if top.reference is None or id(top.reference) not in inside:
             raise Violation(P + ".self_contained.top_reference", disc,
                             "top instance references a definition outside the netlist")
+
+
+def check_wire_endpoints(netlist, disc, name_of, P):
+    """Every pin listed by a wire of a definition of the netlist is a pin of one of that definition's ports or of
+    one of its current children (a wire never keeps the pin of an instance that was taken out of the definition)."""
+    for lib in netlist.libraries:
+        for d in lib.definitions:
+            for cab in d.cables:
+                for wr in cab.wires:
+                    for p in wr.pins:
+                        if kind_of(p) == "ipin":
+                            okp = p.port is not None and p.port.definition is d
+                        else:
+                            okp = p.instance is not None and p.instance.parent is d
+                        if not okp:
+                            raise Violation(P + ".wire_endpoint", disc,
+                                            "wire %s[%d] of %s lists a pin that belongs to neither a port nor a child "
+                                            "of that definition" % (cab.name, list(cab.wires).index(wr), name_of(d)))
